@@ -197,7 +197,7 @@ fn process_entry(c: &Corpus, e: &Entry, tier: Tier, seed: u64, known: &KnownFind
         }
     };
     for st in &tapes {
-        let cases = match directed(&encf, st, tier.pick(60, 600), &mut r.dstats) {
+        let cases = match directed(&encf, st, tier.pick(800, 8000), &mut r.dstats) {
             Ok(cs) => cs,
             Err(p) => {
                 r.problem = Some(p);
